@@ -13,4 +13,11 @@ def fill {α} (idx : List Nat → Nat) (src : List Nat → α) (ts : List (List 
 def convert {α} (idx : List Nat → Nat) (sizes : List Nat) (src : List Nat → α) : Nat → Option α :=
   fill idx src (ndMap sizes) (fun _ => none)
 
+/-- the same fold over tabulated storage (what the driver runs; `C05.convertA_get` ties it to `convert`): writes
+    outside the allocated length are dropped here — in the code they are out-of-bounds accesses (C01 `*_in_storage`) -/
+def fillA {α} (idx : List Nat → Nat) (src : List Nat → α) (ts : List (List Nat)) (st : Array α) : Array α :=
+  ts.foldl (fun st t => st.setIfInBounds (idx t) (src t)) st
+def convertA {α} (idx : List Nat → Nat) (sizes : List Nat) (len : Nat) (zero : α) (src : List Nat → α) : Array α :=
+  fillA idx src (ndMap sizes) (Array.replicate len zero)
+
 end Covfie
